@@ -25,7 +25,9 @@ package main
 //        value / error kind / log. (For rt=diff cases the outcome is only counted.)
 
 import (
+	"flag"
 	"fmt"
+	"io"
 	"math"
 	"os"
 	"path/filepath"
@@ -616,6 +618,15 @@ func c08Sig(ast *parser.ASTNode, txt string) string {
 	return strings.Join(f, "+")
 }
 
+// c08EndsWithBareReturn: class bare-return-at-end — the last statement of the program is a bare return
+func c08EndsWithBareReturn(n *parser.ASTNode) bool {
+	bare := func(x *parser.ASTNode) bool { return x != nil && x.Name == parser.NodeRETURN && len(x.Children) == 0 }
+	if bare(n) {
+		return true
+	}
+	return n != nil && n.Name == parser.NodeSTATEMENTS && len(n.Children) > 0 && bare(n.Children[len(n.Children)-1])
+}
+
 // c08HasNewline: the printed text of the subtree contains a newline (structural: blank line, block
 // comment, multi-line list / map, any block)
 func c08HasNewline(n *parser.ASTNode) bool {
@@ -714,7 +725,126 @@ func c08FormatFile(src, txt string) string {
 	return "ok"
 }
 
+// ---- the format tool on a directory tree (payload `FMT <variant>`): FormatFiles and the command-line entry Format
+//
+// The tree holds parseable, unparseable and empty .ecal files, a file in a sub-directory, a file with another
+// extension and a file with a restrictive mode; variants call tool.FormatFiles or tool.Format (through the package's
+// verif-tag setter of its os.Args copy) on the directory or on a symbolic link to it, with another extension, or
+// with -help. Expected: exactly the files with the extension that parse AND print are replaced by PrettyPrint's
+// text plus a newline; every other file keeps its bytes; every file keeps its mode. Result: fmt=ok | fmt=<what differs>.
+func c08FormatTree(variant int) string {
+	if c08Dir == "" {
+		d, err := os.MkdirTemp(".", "c08-format-")
+		if err != nil {
+			return "fmt=nodir"
+		}
+		c08Dir = d
+	}
+	root := filepath.Join(c08Dir, fmt.Sprintf("tree%d", variant))
+	os.RemoveAll(root)
+	defer os.RemoveAll(root)
+	link := root + "-link"
+	os.Remove(link)
+	defer os.Remove(link)
+	type file struct {
+		rel  string
+		data string
+		mode os.FileMode
+	}
+	files := []file{
+		{"a.ecal", "x:=1+2 *3 # c\nif x>1 {log(\"100%\")}", 0644},
+		{"bad.ecal", "if { a := ", 0644},
+		{"empty.ecal", "", 0644},
+		{"private.ecal", "a  :=  [1,2,3,4,5]", 0600},
+		{"sub/deep/b.ecal", "func f(a,b=1){return a % b}\nf(7)", 0644},
+		{"sub/bad2.ecal", "\"unterminated", 0644},
+		{"sub/c.txt", "a  +  b", 0644},
+		{"notes.ecal.bak", "a  +  b", 0644},
+	}
+	for _, f := range files {
+		p := filepath.Join(root, f.rel)
+		if err := os.MkdirAll(filepath.Dir(p), 0755); err != nil {
+			return "fmt=nomkdir"
+		}
+		if err := os.WriteFile(p, []byte(f.data), f.mode); err != nil {
+			return "fmt=nowrite"
+		}
+		os.Chmod(p, f.mode)
+	}
+	target, ext := root, ".ecal"
+	if variant%2 == 1 {
+		// (an ABSOLUTE target: FormatFiles hands the result of os.Readlink to filepath.Walk as it is, so a relative
+		// link is resolved against the working directory instead of the link's directory and the walk fails with
+		// "no such file" — nothing is written; observed, not part of the property)
+		abs, err := filepath.Abs(root)
+		if err != nil {
+			return "fmt=noabs"
+		}
+		if err := os.Symlink(abs, link); err != nil {
+			return "fmt=nosymlink"
+		}
+		target = link
+	}
+	help := false
+	switch variant / 2 {
+	case 0:
+		oldFlags := flag.CommandLine
+		flag.CommandLine = flag.NewFlagSet("ecal", flag.ContinueOnError)
+		flag.CommandLine.SetOutput(io.Discard)
+		err := tool.FormatFiles(target, ext)
+		flag.CommandLine = oldFlags
+		if err != nil {
+			return "fmt=error:" + oneLine(err.Error())
+		}
+	case 1, 2, 3:
+		if variant/2 == 2 {
+			ext = ".txt"
+		}
+		args := []string{"ecal", "format", "-dir", target, "-ext", ext}
+		if variant/2 == 3 {
+			args = append(args, "-help")
+			help = true
+		}
+		old := tool.VerifSetOsArgs(args)
+		oldFlags := flag.CommandLine
+		flag.CommandLine = flag.NewFlagSet("ecal", flag.ContinueOnError)
+		flag.CommandLine.SetOutput(io.Discard)
+		err := tool.Format()
+		flag.CommandLine = oldFlags
+		tool.VerifSetOsArgs(old)
+		if err != nil {
+			return "fmt=error:" + oneLine(err.Error())
+		}
+	}
+	for _, f := range files {
+		p := filepath.Join(root, f.rel)
+		want := f.data
+		if !help && strings.HasSuffix(f.rel, ext) {
+			if ast, err := c08Parse(f.data); err == nil && ast != nil {
+				if txt, err := parser.PrettyPrint(ast); err == nil {
+					want = txt + "\n"
+				}
+			}
+		}
+		got, err := os.ReadFile(p)
+		if err != nil {
+			return "fmt=missing:" + f.rel
+		}
+		if string(got) != want {
+			return "fmt=content:" + f.rel
+		}
+		if st, err := os.Stat(p); err != nil || st.Mode().Perm() != f.mode {
+			return "fmt=mode:" + f.rel
+		}
+	}
+	return "fmt=ok"
+}
+
 func c08Run(payload string) string {
+	if strings.HasPrefix(payload, "FMT ") {
+		v, _ := strconv.Atoi(strings.TrimPrefix(payload, "FMT "))
+		return c08FormatTree(v)
+	}
 	f := strings.SplitN(payload, " ", 3)
 	src := unhx(f[0])
 	ev := f[1] == "1" || f[1] == "3"
@@ -728,7 +858,10 @@ func c08Run(payload string) string {
 		return "PPERR " + oneLine(err.Error())
 	}
 	inside, ownBlank := c08Inside(ast, true)
-	rtWild := c08UnstablePost(ast, txt) || inside || c08PostfixAfterNewline(ast)
+	// inside the class the printed text must at least PARSE (rt=*p) unless a # comment swallows the rest of its line
+	// or a composition access is pushed off the identifier's line — the two shapes known to produce unparseable text
+	rtWild := c08UnstablePost(ast, txt) || c08PostfixAfterNewline(ast) || inside
+	mayNotParse := c08UnstablePost(ast, txt) || c08PostfixAfterNewline(ast) || c08EndsWithBareReturn(ast)
 	idemWild := rtWild || ownBlank || c08HasPre(ast) || c08BlockThenStatement(ast)
 	sig := c08Sig(ast, txt)
 	rt, idem := "ok", "na"
@@ -754,7 +887,11 @@ func c08Run(payload string) string {
 	}
 	if rtWild {
 		CountRun("newline-inside-statement-class.rt-" + rt)
-		rt = "*"
+		if mayNotParse {
+			rt = "*"
+		} else if rt != "noparse" {
+			rt = "*p"
+		}
 	}
 	if idemWild {
 		CountRun("layout-class.idem-" + idem)
@@ -773,7 +910,7 @@ func c08Run(payload string) string {
 	if ff {
 		res += " ff=" + c08FormatFile(src, txt)
 	}
-	if ev && (rt == "ok" || (rt == "diff" && eqm == "ok")) {
+	if ev && (rt == "ok" || (rt == "diff" && eqm == "ok")) { // (not for "*" / "*p")
 		orig := c08Behaviour(src)
 		same := orig == c08Behaviour(txt)
 		// re-association inside mul-right-brackets changes the ORDER of evaluation: when the original raises an
